@@ -16,7 +16,7 @@ import AurelVerif.Spec.Curvature
 set_option linter.unusedSimpArgs false
 set_option linter.unusedVariables false
 
-namespace AurelVerif.C04
+namespace AurelVerif.C04L
 open AurelVerif.Gen.Core AurelVerif.Tensor AurelVerif.CoreTac AurelVerif.C08 AurelVerif.Spec.Curvature
 
 variable {K : Type} [Field K]
@@ -158,4 +158,4 @@ theorem Einstein_symm (e : Env K) (hg : Sym e.gdown4) (hR : Sym e.st_Ricci_down4
   unfold einstein
   rw [hg a b, hR a b]
 
-end AurelVerif.C04
+end AurelVerif.C04L
